@@ -397,6 +397,18 @@ func (p *c17) RunCase(i int) *core.CaseResult {
 			}
 			r.Outcomes = append(r.Outcomes, fmt.Sprintf("depth%d/%s", strings.Count(br, "[["), oa[:min(len(oa), 5)]))
 		}
+		// both options together: a double-quoted identifier with an escaped quote (it shrinks when it
+		// is rewritten) in front of the brackets - canonical spelling with backticks and ARRAY(...)
+		for _, pair := range [][2]string{
+			{"SELECT a AS `q\"x`, " + fn + " AS v FROM t", "SELECT a AS \"q\\\"x\", " + br + " AS v FROM t"},
+			{"SELECT `a` AS `k`, " + fn + " AS v, 'é' AS z FROM `t`", "SELECT \"a\" AS \"k\", " + br + " AS v, 'é' AS z FROM \"t\""},
+		} {
+			oa, ob := outcome(gq.Run(c17Doc(), pair[0])), outcome(gq.Run(c17Doc(), pair[1], combos[3]...))
+			r.Execs += 2
+			if oa != ob && !(strings.HasPrefix(oa, "panic") && strings.HasPrefix(ob, "panic")) {
+				r.Fail("C17|idiomatic-arrays|pg+idiomatic|quoted-identifier-before-brackets", fmt.Sprintf("%s -> %s; %s with pg+idiomatic -> %s", pair[0], oa, pair[1], ob), map[string]any{"canonical": pair[0], "both_options": pair[1]})
+			}
+		}
 	case "same-text":
 		e := c17SameText[c.idx]
 		wantWith := outcome(gq.Run(c17Doc(), e.with))
